@@ -1772,6 +1772,32 @@ def rule_or_bypass(repo, col):
                                 and isinstance(y.value, ast.Constant) and \
                                 y.value.value is None:
                             hit = y
+        # the guard of that store, evaluated for an *empty* sequence: no
+        # entries is not "every entry is blank"
+        if hit is not None:
+            from .consteval import ConstEval, UNKNOWN as _UNK
+            guard = None
+            for n in ast.walk(init):
+                if isinstance(n, ast.If) and any(x is hit for b_ in n.body
+                                                 for x in ast.walk(b_)) and \
+                        not (isinstance(n.test, ast.Compare) and
+                             dotted(n.test.left) == param):
+                    guard = n
+            if guard is not None:
+                v = ConstEval(repo).ev(guard.test, TABLE, {param: []})
+                if v is _UNK:
+                    col.unknown(rule, TABLE, 'Table.__init__',
+                                'empty-sequence:%s' % param, guard.test,
+                                'guard not evaluable for an empty sequence')
+                else:
+                    col.check(not v, rule, TABLE, 'Table.__init__',
+                              'empty-sequence:%s' % param, guard.test,
+                              'an empty sequence is not treated as blank',
+                              '`%s` holds for an empty sequence: metadata '
+                              'with no entries at all (wrong length for a '
+                              'non-empty axis) is silently turned into None '
+                              'instead of being refused'
+                              % unparse(guard.test, 60))
         col.check(hit is None, rule, TABLE, 'Table.__init__',
                   'all-falsy:%s' % param, hit or init,
                   'supplied metadata is always what is checked',
